@@ -94,21 +94,26 @@ L2_BSI32_Q = [B32 + n for n in ["compare_spec", "minMax_spec", "sum_spec", "batc
 L2_PAR = [RP + n for n in ["toBSet_parOr", "wf_parOr", "parOr_worker_independent", "toBSet_parHeapOr", "wf_parHeapOr",
                            "toBSet_parAnd", "wf_parAnd", "parHeapOr_worker_independent", "parAnd_worker_independent"]] + \
     ["RModel.Impl.ParData.chunk_partition"]
+L2_REPQ = [RP + n for n in ["card_spec", "isEmpty_spec", "contains_spec", "minimum_spec", "maximum_spec", "rank_spec", "select_spec",
+                            "cardInRange_spec", "intersectsWithInterval_spec", "equals_spec"]]
+L2_REPNBR = [RP + n for n in ["nextValue_spec", "previousValue_spec", "nextAbsentValue_spec", "previousAbsentValue_spec"]]
+L2_REPCARD = [RP + n for n in ["andCardinality_spec", "orCardinality_spec", "intersects_spec", "equals_spec"]] + \
+    ["RModel.Impl.Cont.andCardinalityQ_spec", "RModel.Impl.Cont.intersectsQ_spec", "RModel.Impl.Cont.equalsQ_spec"]
 L1_XFORM = ["RModel.BSet.mem_shift", "RModel.BSet.canon_shift", "RModel.BSet.mem_flipRange", "RModel.BSet.canon_xor"]
 
 PROPS = {
-    "C01": {"suites": [("alg", 1.0), ("kern", 0.3), ("kernspecial", 1.0), ("kernthresh", 0.5), ("popcnt", 1.0), ("kernl2", 0.5), ("l2rep", 0.5), ("kernmutbin", 0.3), ("l2mut", 0.3)],
-            "theorems": L1_ALGEBRA + F_THRESH + L2_CONT + L2_REP + L2_IBIN + L2_REPIBIN + PINS + FASTEQ,
-            "modules": DEFAULT_MODULES + [FACTS, PINS_MOD, FASTEQ_MOD, "RProofs.ContOps", "RProofs.RepOps", "RProofs.ContMut", "RProofs.RepMut"],
+    "C01": {"suites": [("alg", 1.0), ("kern", 0.3), ("kernspecial", 1.0), ("kernthresh", 0.5), ("popcnt", 1.0), ("kernl2", 0.5), ("l2rep", 0.5), ("kernmutbin", 0.3), ("l2mut", 0.3), ("l2q", 0.4)],
+            "theorems": L1_ALGEBRA + F_THRESH + L2_CONT + L2_REP + L2_IBIN + L2_REPIBIN + PINS + FASTEQ + L2_REPCARD,
+            "modules": DEFAULT_MODULES + [FACTS, PINS_MOD, FASTEQ_MOD, "RProofs.RepQuery", "RProofs.ContOps", "RProofs.RepOps", "RProofs.ContMut", "RProofs.RepMut"],
             "owns": {"and", "or", "xor", "andnot", "iand", "ior", "ixor", "iandnot", "andcard", "orcard", "isect", "eq", "dig",
-                     "kern", "popcnt", "l2op", "l2iop"}},
+                     "kern", "popcnt", "l2op", "l2iop", "l2q2"}},
     "C02": {"suites": [("hist", 1.0), ("kernmut", 0.4), ("l2mut", 0.6)], "theorems": L1_MUT + L1_ALGEBRA[:3] + F_THRESH + L2_MUT + L2_REPMUT + PINS,
             "modules": DEFAULT_MODULES + [FACTS, PINS_MOD, "RProofs.ContMut", "RProofs.RepMut"],
             "owns": {"new", "add", "cadd", "addint", "addmany", "addmanyfrom", "rem", "crem", "addr", "remr", "flip", "clear", "opt", "clone",
                      "cowclone", "detach", "setcow", "dig", "card", "empty", "of", "kern", "l2mut"}},
-    "C03": {"suites": [("query", 1.0), ("kernq", 0.3), ("eqpairs", 0.5), ("kernq2", 0.3)], "theorems": L1_QUERY + L2_QUERY,
-            "modules": DEFAULT_MODULES + ["RProofs.ContQuery", "RProofs.ContQueryNumRuns"],
-            "owns": {"card", "empty", "has", "min", "max", "rank", "sel", "cir", "iwi", "eq", "toarr", "toexarr", "chkeq", "dig", "kern", "mkrepr"}},
+    "C03": {"suites": [("query", 1.0), ("kernq", 0.3), ("eqpairs", 0.5), ("kernq2", 0.3), ("l2q", 0.7)], "theorems": L1_QUERY + L2_QUERY + L2_REPQ,
+            "modules": DEFAULT_MODULES + ["RProofs.ContQuery", "RProofs.ContQueryNumRuns", "RProofs.RepQuery"],
+            "owns": {"card", "empty", "has", "min", "max", "rank", "sel", "cir", "iwi", "eq", "toarr", "toexarr", "chkeq", "dig", "kern", "mkrepr", "l2q", "l2q2"}},
     "C04": {"suites": [("iter", 1.0), ("iterun", 1.0), ("l2iter", 0.6)], "modules": DEFAULT_MODULES + ["RProofs.Iter", "RProofs.IterAdv", "RProofs.IterRev", "RProofs.IterMany"],
             "theorems": L1_NBR[:4] + ["RModel.BSet.rankLt_eq_count", "RModel.BSet.card_eq_rankLt", "RModel.BSet.select_spec",
                                       "RModel.BSet.select_none", "RModel.BSet.mem_toList", "RModel.BSet.toList_sorted",
@@ -169,8 +174,8 @@ PROPS = {
     "C14": {"suites": [("hist", 1.0), ("alg", 0.7), ("xform", 0.5), ("thresh", 0.5), ("sizeb", 1.0), ("agg", 0.5)],
             "theorems": ["RModel.Impl.readme_bound", "RModel.Impl.bound_function", "RModel.BSet.canon_ext"] + F_SERIAL,
             "modules": DEFAULT_MODULES + [FACTS, "RProofs.Properties.C14"], "owns": {"size"}},
-    "C15": {"suites": [("nbr", 1.0), ("kernq", 0.3), ("kernq2", 0.3)], "theorems": L1_NBR + L2_NBRQ,
-            "modules": DEFAULT_MODULES + ["RProofs.ContQuery"], "owns": {"nv", "pv", "nav", "pav", "kern"}},
+    "C15": {"suites": [("nbr", 1.0), ("kernq", 0.3), ("kernq2", 0.3), ("l2q", 0.5)], "theorems": L1_NBR + L2_NBRQ + L2_REPNBR,
+            "modules": DEFAULT_MODULES + ["RProofs.ContQuery", "RProofs.RepQuery"], "owns": {"nv", "pv", "nav", "pav", "kern", "l2q"}},
     "C16": {"suites": [("xform", 1.0), ("dense", 1.0), ("zc_dense", 0.5), ("l2xform", 1.0)], "theorems": L1_XFORM + L2_XFORM,
             "modules": DEFAULT_MODULES + ["RProofs.RepXform"],
             "owns": {"off", "off32", "sflip", "eq", "dense", "fromdense", "frombitset", "densechk", "dig",
